@@ -53,8 +53,9 @@ impl CodePointSet {
     pub open spec fn wf(&self) -> bool { ivs_wf(self.ivs@) }
     pub open spec fn has(&self, cp: int) -> bool { ivs_has(self.ivs@, cp) }
 
-    // Assumed contract (trusted, listed in the evidence): the constructor stores the vector; its debug assertion
-    // (assert_is_well_formed) is turned into the precondition, so it is a proof obligation at every call site.
+    // Callee contract used modularly here: the constructor stores the vector; its debug assertion (assert_is_well_formed) is
+    // turned into the precondition, so it is a proof obligation at every call site. The real body is verified against exactly
+    // this contract by the unit cv_set_small (item from_sorted).
     #[verifier::external_body]
     pub fn from_sorted_disjoint_intervals(ivs: Vec<Interval>) -> (r: CodePointSet)
         requires ivs_wf(ivs@),
